@@ -88,6 +88,13 @@ CHECKS = {
         "deterministic simulation: differential twin runs across observer configurations; crash-restart through the durable file",
         "DESIGN.md 4/C11", 900, 7200,
     ),
+    "C09": (
+        "exploration",
+        "The schedule dimension is the execution environment: each seeded scenario (screening on in ~70% so the parallel numba kernel runs, adaptive, time-dependent drives, callable currents so the random validator runs) is executed in 4-6 FRESH interpreters differing in PYTHONHASHSEED, numba threads 1..16 (incl. 16 threads pinned to one core), parallel chunk size, CPU affinity, cwd and output location (absolute / relative / temp dir), simulated wall-clock script, validator RNG seed and unrelated work done in the process first (another simulation, consumed global RNGs, HDF5_USE_FILE_LOCKING set); sha256 over mesh arrays, every update's output, every frame, fixed values and every dataset/attribute of the output file except timestamp/time_created/total_seconds, the requested output path and the version_info group must be identical.",
+        "The interleaving of threads inside the numba/OpenMP kernel is sampled (thread count, chunk size, affinity), not controlled by the simulator (stated limit, DESIGN.md 10). Cloudpickled callables (opaque blobs) are excluded from the file digest.",
+        "deterministic simulation: differential executions of one seed across fresh interpreters and execution environments",
+        "DESIGN.md 4/C09", 900, 7200,
+    ),
 }
 
 
